@@ -194,6 +194,8 @@ type c19Mapper struct {
 type c19Rec struct {
 	mu     sync.Mutex
 	slices [][2]int
+	failAt int  // the chunk holding this position fails (-1: none)
+	panics bool // ... by panicking rather than by returning an error
 }
 
 func (m c19Mapper) Len() int { return m.hi - m.lo }
@@ -203,22 +205,45 @@ func (m c19Mapper) Slice(i, j int) concurrent.Mapper {
 	m.rec.mu.Unlock()
 	return c19Mapper{m.lo + i, m.lo + j, m.rec}
 }
-func (m c19Mapper) Operation() (interface{}, error) { return [2]int{m.lo, m.hi}, nil }
+func (m c19Mapper) Operation() (interface{}, error) {
+	if f := m.rec.failAt; f >= m.lo && f < m.hi {
+		if m.rec.panics {
+			panic(fmt.Sprintf("chunk [%d,%d) blew up", m.lo, m.hi))
+		}
+		return nil, fmt.Errorf("chunk [%d,%d) failed", m.lo, m.hi)
+	}
+	return [2]int{m.lo, m.hi}, nil
+}
 
 func c19Map(r *obs.Run) {
 	rng := r.Rng
 	n := []int{0, 1, 2, 7, 16, 100, 1000, rng.Intn(1001)}[rng.Intn(8)]
 	threads := 1 + rng.Intn(16)
 	maxChunk := []int{1, 2, 3, 10, 1000, 1 + rng.Intn(50)}[rng.Intn(6)]
-	rec := &c19Rec{}
-	r.Crumb(fmt.Sprintf("map n=%d threads=%d maxChunk=%d", n, threads, maxChunk))
+	rec := &c19Rec{failAt: -1}
+	if n > 0 && rng.Intn(4) == 0 { // one chunk fails (or panics): Map reports an error, and nothing panics outside the workers
+		rec.failAt, rec.panics = rng.Intn(minInt(n, 1+rng.Intn(n))), rng.Intn(2) == 0
+	}
+	r.Crumb(fmt.Sprintf("map n=%d threads=%d maxChunk=%d failAt=%d panics=%v", n, threads, maxChunk, rec.failAt, rec.panics))
 	res, err := concurrent.Map(c19Mapper{0, n, rec}, threads, maxChunk)
-	w := map[string]interface{}{"len": n, "threads": threads, "max_chunk": maxChunk, "slices": rec.slices, "results": fmt.Sprint(res)}
+	rec.mu.Lock() // after a failure the goroutine feeding chunks may still be slicing
+	slices := append([][2]int(nil), rec.slices...)
+	rec.mu.Unlock()
+	w := map[string]interface{}{"len": n, "threads": threads, "max_chunk": maxChunk, "slices": slices, "results": fmt.Sprint(res), "failing_position": rec.failAt, "fails_by_panicking": rec.panics}
+	if rec.failAt >= 0 {
+		if err == nil {
+			r.Violate("map-error", fmt.Sprintf("the chunk holding position %d failed and Map returned no error", rec.failAt), w)
+			return
+		}
+		r.Count("map_runs_with_a_failing_chunk", 1)
+		r.Note(fmt.Sprintf("mapfail/%d/%d/%d/%d/%v", n, threads, maxChunk, rec.failAt, rec.panics), true)
+		return
+	}
 	if err != nil {
 		r.Violate("map-error", "Map returned "+err.Error(), w)
 		return
 	}
-	sl := append([][2]int(nil), rec.slices...)
+	sl := append([][2]int(nil), slices...)
 	sort.Slice(sl, func(a, b int) bool { return sl[a][0] < sl[b][0] })
 	pos := 0
 	for _, s := range sl {
